@@ -635,11 +635,13 @@ def disc_schema_table_rule(cx, rep, rid):
     constructs a Runtype from a string that is not a literal (the key) through a Runtype constructor."""
     import facts as RF
     F = cx.rs
-    def builds_const_from_var(root, crate):
+    owner_of = {}
+
+    def builds_const_from_var(root, crate, owner=None):
         seen = set()
-        stack = [root]
+        stack = [(root, owner)]
         while stack:
-            r = stack.pop()
+            r, own_ = stack.pop()
             for x in RF.walk(r):
                 if x["k"] not in ("Call", "MethodCall"):
                     continue
@@ -649,12 +651,53 @@ def disc_schema_table_rule(cx, rep, rid):
                 args = list(x.get("args") or [])
                 if "runtype::Runtype::" in cal and (x.get("ty") or "").endswith("runtype::Runtype") and args:
                     if any((a.get("ty") or "").replace("&", "").strip() in ("str", "std::string::String") and a["k"] != "Lit" for a in args):
+                        owner_of[id(x)] = own_
                         return x
                 tg = F._callee_gid(crate, cal)
                 if tg in F.hir and tg not in seen:
                     seen.add(tg)
-                    stack.append(F.hir[tg]["body"])
+                    stack.append((F.hir[tg]["body"], F.hir[tg]))
         return None
+
+    def flag_guards(hit, tree):
+        """bool-typed PARAMETERS (of the function or of a closure) read by the conditions the narrowing call runs under"""
+        if tree is None:
+            return []
+        parents = {}
+        for x in RF.walk(tree["body"]):
+            for c_ in RF.children(x):
+                parents[id(c_)] = x
+        params = {}
+        for p_ in tree.get("params", []):
+            for b_ in RF.walk(p_):
+                if b_["k"] == "P.Binding":
+                    params[b_.get("lid")] = b_
+        for x in RF.walk(tree["body"]):
+            if x["k"] == "Closure":
+                for p_ in x.get("params", []):
+                    for b_ in RF.walk(p_):
+                        if b_["k"] == "P.Binding":
+                            params[b_.get("lid")] = b_
+        lets = {}
+        for x in RF.walk(tree["body"]):
+            if x["k"] == "LetStmt" and x.get("init") is not None and x["pat"].get("k") == "P.Binding":
+                lets[x["pat"].get("lid")] = x["init"]
+        bad = []
+
+        def scan(e, depth=0):
+            for z in RF.walk(e):
+                if z["k"] == "Path" and z.get("res") == "local" and (z.get("ty") or "").replace("&", "").strip() == "bool":
+                    if z.get("lid") in params:
+                        bad.append(z.get("name"))
+                    elif z.get("lid") in lets and depth < 3:
+                        scan(lets[z["lid"]], depth + 1)
+        cur = hit
+        while id(cur) in parents:
+            par = parents[id(cur)]
+            if par["k"] == "If" and not any(z is cur for z in RF.walk(par["cond"])):
+                scan(par["cond"])
+            cur = par
+        return sorted(set(bad))
     n = 0
     for g in sorted(F.hir):
         f = F.fns.get(g)
@@ -682,7 +725,38 @@ def disc_schema_table_rule(cx, rep, rid):
                     roots.append(st["init"])
             hit = None
             for r in roots:
-                hit = hit or builds_const_from_var(r, f.crate)
+                hit = hit or builds_const_from_var(r, f.crate, F.hir[g])
+            if hit is not None:
+                otree = owner_of.get(id(hit))
+                flags = flag_guards(hit, otree)
+                if flags and otree is not None and otree is not F.hir[g]:
+                    # a shared table builder with a mode parameter is fine when the SCHEMA table is built with the
+                    # literal `true`: judge the flag at the calls that produce the last argument
+                    pnames = [b_.get("name") for p_ in otree.get("params", []) for b_ in RF.walk(p_) if b_["k"] == "P.Binding"]
+                    ogid = next((k_ for k_, v_ in F.hir.items() if v_ is otree), None)
+                    still = []
+                    for fl in flags:
+                        if fl not in pnames:
+                            still.append(fl)
+                            continue
+                        idx = pnames.index(fl)
+                        lit_true = []
+                        for r in roots:
+                            for c_ in RF.walk(r):
+                                if c_["k"] in ("Call", "MethodCall") and F._callee_gid(f.crate, (c_.get("callee") if c_["k"] == "Call" else (c_.get("resolved") or c_.get("callee"))) or "") == ogid:
+                                    args_ = ([c_["recv"]] if c_["k"] == "MethodCall" else []) + list(c_.get("args") or [])
+                                    a_ = args_[idx] if idx < len(args_) else None
+                                    if a_ is not None and a_["k"] == "Path" and a_.get("res") == "local":
+                                        inits_ = [st_["init"] for st_ in RF.walk(body) if st_["k"] == "LetStmt" and st_.get("init") is not None and st_["pat"].get("k") == "P.Binding" and st_["pat"].get("lid") == a_.get("lid") and not st_["pat"].get("mut")]
+                                        if len(inits_) == 1:
+                                            a_ = inits_[0]
+                                    lit_true.append(a_ is not None and a_["k"] == "Lit" and str(a_.get("value", a_.get("v", ""))).lower() == "true")
+                        if not lit_true or not all(lit_true):
+                            still.append(fl)
+                    flags = still
+                rep.ob(rid, "%s/narrowing-unconditional" % f.id.rsplit("::", 1)[-1], not flags,
+                       "the entries of the schema table of AnyOfDiscriminatedRuntype are narrowed to their key only when the flag(s) %s hold: whether a variant carries several discriminator literals cannot be read off a count or a mode - for the inputs where the flag is off, a variant listed under two keys is printed twice with the same body, `oneOf` has two matching branches for its values and the schema rejects what validate() accepts" % flags,
+                       "%s:%s" % (f.file, hit["line"]), sample={"fn": f.id, "flags": flags})
             rep.ob(rid, "%s/schema-table-narrowed" % f.id.rsplit("::", 1)[-1], hit is not None,
                    "%s passes a schema table to AnyOfDiscriminatedRuntype whose entries are never narrowed to their key (no Runtype is constructed from the key string): a variant with several discriminator literals is printed under each of them with the same body, `oneOf` then has two matching branches for every value of that variant and the schema rejects what validate() accepts" % f.id,
                    "%s:%s" % (f.file, call["line"]), sample={"fn": f.id, "narrowing_call": (hit or {}).get("callee") or (hit or {}).get("resolved"), "line": (hit or {}).get("line")})
